@@ -41,6 +41,36 @@ CHECKS = {
             "Every sequence of operations up to the depth bound on one parser, replayed from a fresh instance, with every returned tree "
             "and token list compared with a fresh parser's answer.",
             "token objects and returned trees are not mutated by the harness", "5 C12"),
+    "C04": ("exploration",
+            "bounded exhaustive enumeration of parser outputs and rewrite outputs; print -> parse -> grid equivalence",
+            "Every tree the parser returns for the token-class strings up to the bound, every start tree of the expression / equation "
+            "families and every tree reached from them by the stated number of rewrite steps is printed, re-parsed and compared "
+            "(variables, value on a rational grid / solution set). Failures are localised to the smallest failing subtree.",
+            "exact evaluator + degree-bound grid; NaN/inf constants excluded as the property says", "5 C04"),
+    "C05": ("exploration",
+            "bounded exhaustive enumeration of small trees over a magnitude alphabet vs Python big-int / IEEE reference",
+            "All trees up to the node bound whose leaves (constants and variable values) range over a magnitude alphabet bracketing the "
+            "int64 and float64 boundaries are evaluated and compared with exact Python integers (exact class), with the same IEEE "
+            "operation sequence (float class, 4 ulp per operation of the largest intermediate), NaN for x/0, plus the unbound-variable "
+            "and equation clauses.",
+            "Python int and float arithmetic as reference; classes the property leaves unspecified are not judged", "5 C05"),
+    "C13": ("exploration",
+            "bounded exhaustive enumeration of constructor-built trees (operand on either side) x every node for clone_from_root",
+            "Every tree up to the node bound over all node kinds, with one-operand nodes holding the operand on either side, plus parser "
+            "and rewrite outputs: clone() compared field by field, printed, evaluated, mutated in both directions; clone_from_root() "
+            "from every node must return the copy of that node at the same position in a complete copy.",
+            "self form of clone_from_root only", "5 C13"),
+    "C16": ("exploration",
+            "bounded exhaustive enumeration of addend multisets x permutations x groupings, triples, integers, trees",
+            "has_like_terms over all permutations and groupings of every multiset of addends up to the bound; terms_are_like on all "
+            "ordered pairs; every (coefficient, variable, exponent) triple through text -> get_term_ex and make_term -> value / "
+            "decomposition; factor(n) against the divisor table for every n up to the bound; all predicates on all small trees.",
+            "exact evaluator for make_term values", "5 C16"),
+    "C18": ("model_checking",
+            "exhaustive enumeration of all tree shapes x unit settings x layout-call histories on the same node objects",
+            "Every binary tree shape up to the bound is laid out under three unit settings, mirrored, and through five call histories on "
+            "the same node objects; all tidy-tree invariants, the bounding box and equality with a freshly built tree are checked.",
+            "'one unit apart' measured between in-order neighbours of one depth", "5 C18"),
     "C06": ("model_checking",
             "explicit-state exploration: every state x every configuration x every node; snapshot oracle for purity",
             "For every explored state can_apply_to is called on every node under every configuration with a before/after snapshot of the "
